@@ -1129,7 +1129,7 @@ def _clip_chain_depth(repo, ob, failure):
             '<clipPath id="c3" clip-path="url(#c2)"><rect wh="8"/></clipPath><rect wh="10" clip-path="url(#c3)"/></svg>']
     for doc in docs:
         r = run_svgdx(repo, doc)
-        if r["rc"] != 0 and "DepthLimit" in r["err"]:
+        if r["rc"] != 0 and ("DepthLimit" in r["err"] or "exceeded limit" in r["err"]):
             return {"input": doc, "observed": "rejected: " + r["err"].strip()[-60:], "expected": "accepted (nesting depth is 3)"}
     cyc = ('<svg><defs><clipPath id="a" clip-path="url(#b)"><rect wh="5"/></clipPath><clipPath id="b" clip-path="url(#a)"><rect wh="5"/></clipPath></defs>'
            '<rect wh="10" clip-path="url(#a)"/></svg>')
